@@ -186,6 +186,10 @@ def run(chk):
         V = m["V"]
         size = float(np.max(V.max(0) - V.min(0)))
         coordsets = [set(V[:, j].tolist()) for j in range(3)]
+        if m["cls"] == "sphero":
+            # the hypotheses of C05_spheropolyhedron_is_inside_spec (planar strictly convex ccw faces, every edge covered by a neighbour), decided
+            # exactly for the implementation's own face list
+            chk.count("sphero:certificate-holds" if int(res[m["i0"] + 2][0]) == 1 else "sphero:certificate-fails(theorem does not apply)")
         for k in range(len(pts)):
             d2 = C.fl(r1[k])
             shares = any(pts[k][j] in coordsets[j] for j in range(3))
@@ -208,7 +212,7 @@ def run(chk):
                     chk.violation("spheropolyhedron-is_inside", dict(kind=m["kind"], vertices=V.tolist(), radius=r, point=pts[k].tolist(),
                                                                     impl=bool(m["got"][k]), exact=exact, dist_to_core=float(np.sqrt(d2)), in_core=incore))
                 # model of the algorithm vs. implementation, and vs. the exact specification (the theorem C05_spheropolyhedron_* are about it)
-                ralg = res[m["i0"] + 2]
+                ralg = res[m["i0"] + 2][1:]
                 alg = bool(ralg[3 * k])
                 chk.count("sphero:model-of-algorithm")
                 if alg != bool(m["got"][k]):
